@@ -3,7 +3,7 @@
    (their type is their contract: return or raise ValueError); `v / 1000` may raise (div1000 : NUM -> res NUM).
    The theorem holds for EVERY such oracle, both validation modes and every input string, and includes
    termination: the model's loops are fuelled and OutOfFuel is not among the possible outcomes. *)
-From V Require Import lib.PyBase lib.PyStr model.Validation model.TextParser proofs.TextParserTotal.
+From V Require Import lib.PyBase lib.PyStr model.Validation model.TextParser proofs.TextParserTotal proofs.ParseSession.
 Open Scope N_scope.
 
 Theorem C14_text_total :
@@ -20,6 +20,26 @@ Theorem C14_text_deterministic :
     text_parse legacy true NUM parse_num parse_float div1000 true s = r2 -> r1 = r2.
 Proof. exact (fun _ _ _ _ _ _ r1 r2 H1 H2 => eq_trans (eq_sym H1) H2). Qed.
 Print Assumptions C14_text_deterministic.
+
+(* ... and on every run of a process: a run is a sequence of parses (session = the parser mapped over the documents, the
+   parser module keeps nothing between calls); the outcome of a document does not depend on what was parsed before or
+   after it, and a document met at two points of two runs (again later, or d1 d2 against d2 d1) has one outcome.
+   harness/c14hist.py observes this on the implementation: fresh interpreter states, both orders, the warmed checker. *)
+Theorem C14_text_history_independent :
+  forall legacy NUM parse_num parse_float div1000 (before after : list str) (s : str),
+    nth_error (session _ _ (text_parse legacy true NUM parse_num parse_float div1000 true) (before ++ s :: after))
+              (length before)
+    = Some (text_parse legacy true NUM parse_num parse_float div1000 true s).
+Proof. intros; exact (session_history_independent _ _ _ before s after). Qed.
+Print Assumptions C14_text_history_independent.
+
+Theorem C14_text_same_outcome_in_any_run :
+  forall legacy NUM parse_num parse_float div1000 (run1 run2 : list str) i j s,
+    nth_error run1 i = Some s -> nth_error run2 j = Some s ->
+    nth_error (session _ _ (text_parse legacy true NUM parse_num parse_float div1000 true) run1) i
+    = nth_error (session _ _ (text_parse legacy true NUM parse_num parse_float div1000 true) run2) j.
+Proof. intros legacy NUM pn pf dv run1 run2 i j s; exact (session_same_outcome _ _ _ run1 run2 i j s). Qed.
+Print Assumptions C14_text_same_outcome_in_any_run.
 
 (* name/label tokens: with the repair, unquoting never raises anything but ValueError *)
 Theorem C14_unquote_unescape_total : forall t, only_VE (unquote_unescape_with true t).
